@@ -165,12 +165,58 @@ def argument_kinds(G, ctx):
         ctx.count("argument-kinds")
 
 
+def adev_sites(G, ctx):
+    """ADEV estimator sites (they bind adev_sample_p, not sample_p) inside a seeded function are sample sites like any other:
+    the result is a function of the key (different keys -> different draws, same key -> same draw), stable under jit / vmap."""
+    import jax
+    import jax.numpy as jnp
+    import jax.random as jr
+    import numpy as np
+    from genjax.adev import flip_enum, normal_reparam, normal_reinforce
+    normal = G.normal
+
+    @G.gen
+    def guide(m):
+        z = normal_reparam(m, 1.0) @ "z"
+        w = normal_reinforce(z, 0.5) @ "w"
+        return z + w
+
+    progs = {
+        "normal_reparam.sample": (lambda m: normal_reparam.sample(m, 1.0) + normal.sample(0.0, 1.0), 0.25),
+        "gen fn with ADEV sites (simulate)": (lambda m: guide.simulate(m).get_retval(), 0.25),
+    }
+    keys = jr.split(jr.key(ctx.seed + 77), 4)
+    for name, (f, arg) in progs.items():
+        case = {"kind": "adev-sites-under-seed", "program": name}
+        try:
+            s_ = G.seed(f)
+            outs = [float(s_(k, arg)) for k in keys]
+            again = float(s_(keys[0], arg))
+            normal.sample(0.0, 1.0)            # advance the global counter, prime caches
+            later = float(G.seed(f)(keys[0], arg))
+            jit0 = float(jax.jit(s_)(keys[0], arg))
+            vm = np.asarray(jax.vmap(s_, in_axes=(0, None))(keys, arg))
+            if len(set(outs)) != len(outs):
+                ctx.property_failure(None, f"{name}: seeded runs with different keys return equal values {outs} (the site ignores the key)", {**case, "values": outs})
+            elif outs[0] != again or outs[0] != later:
+                ctx.property_failure(None, f"{name}: the same key gives {outs[0]}, {again}, {later} (depends on call history)", case)
+            elif abs(jit0 - outs[0]) > 1e-5 or not np.allclose(vm, np.array(outs), rtol=1e-5, atol=1e-6):
+                ctx.property_failure(None, f"{name}: jit / vmap over keys differ from the eager seeded runs", {**case, "eager": outs, "jit": jit0, "vmap": vm.tolist()})
+        except Exception as e:
+            impl.reset_handlers()
+            ctx.property_failure(None, f"{name}: a seeded call raised {type(e).__name__}: {str(e)[:150]}", case)
+        ctx.case(sample=case, nontrivial_key=("adev-site", name))
+        ctx.count("adev-sites-under-seed")
+
+
 def shard(ctx, shard_i, n):
     G = impl.load()
     rng = random.Random(ctx.seed * 977 + shard_i)
     hist = random.Random(ctx.seed * 13 + shard_i)
     if shard_i == 1:
         argument_kinds(G, ctx)
+    if shard_i == 2:
+        adev_sites(G, ctx)
     if shard_i == 0:
         kwargs_and_binders(G, ctx)
         check_prog(G, ctx, [("site", 1), ("vsite", 2, 3), ("scan", [("site", 3)], 2), ("site", 4)], 42, hist)
@@ -195,6 +241,8 @@ def replay(ctx, payload):
         check_prog(G, ctx, tup(json.loads(c["prog"])), c["key"], random.Random(1))
     elif c.get("kind") == "argument-kinds":
         argument_kinds(G, ctx)
+    elif c.get("kind") == "adev-sites-under-seed":
+        adev_sites(G, ctx)
     else:
         kwargs_and_binders(G, ctx)
     for i in ctx.issues:
